@@ -3,7 +3,7 @@
 copy, checks build + unchanged suite, and runs all 20 properties on it. Silent ones are kept under selftest/refactors/_all/;
 every alarm is printed (a false alarm to be fixed in the checker, or a refactoring that is not behaviour-preserving)."""
 import subprocess, os, sys, shutil, tempfile, glob
-area=sys.argv[1]; wt='/tmp/rf-'+area
+area=sys.argv[1]; wt=sys.argv[2] if len(sys.argv)>2 else '/tmp/rf-'+area
 ENV=dict(os.environ, GOFLAGS='-mod=mod', GOPROXY='off', GOSUMDB='off', GOTOOLCHAIN='local', GOWORK='off')
 os.makedirs('/verif/selftest/refactors/_all',exist_ok=True)
 for f in sorted(glob.glob(wt+'/refactor*.diff')):
